@@ -111,6 +111,13 @@ class Ctx:
     def unsupported(self, msg):
         self.die(Unsupported(msg))
 
+    def classify(self, e):
+        """to be called by a unit that catches the exceptions of the code under verification itself: ends the path as undecided when the exception only
+        says that no contract applies (see no_contract_applies)"""
+        m = no_contract_applies(e)
+        if m is not None:
+            self.unsupported(m)
+
     def end_path(self, why="end"):
         self.die(PathEnd(why))
 
@@ -226,6 +233,33 @@ def _raised_in_code_under_test(e):
         last = tb
         tb = tb.tb_next
     return last is not None and last.tb_frame.f_code.co_filename.startswith(REPO_SRC)
+
+
+def no_contract_applies(e):
+    """Exceptions that mean 'the code uses the sidecar's stubs / environment in a way no contract describes' - never a verdict about the code:
+    a missing global of the extracted code, an attribute a sidecar stub does not model, a stub called with another signature, a name of the
+    real package that no longer exists.  Returns a message, or None when the exception is a behaviour of the code under verification."""
+    if isinstance(e, EngineSignal):
+        return None
+    msg = f"code no longer matches the sidecar's contracts: {type(e).__name__}: {e}"
+    if type(e) is NameError and "is not defined" in str(e) and getattr(e, "name", None) and _raised_in_code_under_test(e):
+        return msg
+    if type(e) is AttributeError and _is_sidecar_object(getattr(e, "obj", None)) and _raised_in_code_under_test(e):
+        return msg
+    if type(e) is TypeError and _raised_in_code_under_test(e) and any(w in str(e) for w in (
+            "unexpected keyword argument", "required positional argument", "required keyword-only argument", "positional arguments but", "positional argument but",
+            "multiple values for argument")):
+        return msg
+    if _renamed_in_repo(e):
+        return msg
+    return None
+
+
+def _is_sidecar_object(o):
+    if o is None:
+        return False
+    mod = (getattr(o, "__module__", "") if isinstance(o, type) else getattr(type(o), "__module__", "")) or ""
+    return mod.startswith(("contracts.", "ujvc.")) or mod in ("contracts", "ujvc")
 
 
 def _renamed_in_repo(e):
